@@ -227,6 +227,12 @@ theorem qu2ho_too_long_of_neg (q : Quat ℝ) (h : Quat.normSq q = 1) (h1 : -1 < 
     3 * Real.pi / 4 < (Vec3.norm (Conv.toHomochoric q)) ^ 3 := by
   rw [Conv.toHomochoric, unit_of_normSq_one q h]; exact qu2ho_norm_gt_of_neg q h h1 h2
 
+/-- the homochoric *inverse* of the code maps every vector shorter than `10⁻⁴` (rotation angle below `2·10⁻⁴`) to
+the identity, because `ho2ax_single` compares the squared length with `1e-8` (known finding; the inverse is
+otherwise a fitted polynomial and tied by correspondence only) -/
+theorem fromHomochoric_small (h : Vec3 ℝ) (hs : h.x * h.x + h.y * h.y + h.z * h.z < 1 / 10 ^ 8) :
+    Conv.ho2ax h = ⟨⟨0, 0, 1⟩, 0⟩ := ho2ax_small h hs
+
 /-! ## non-vacuity: the hypotheses are met by concrete rotations -/
 
 example : Quat.normSq (⟨1 / 2, 1 / 2, 1 / 2, 1 / 2⟩ : Quat ℝ) = 1 := by simp only [Quat.normSq]; norm_num
